@@ -249,6 +249,17 @@ def Ctx.endTok (c : Ctx) : Res (Option Tok) :=
   if c.indexInRange (c.tp.stop - c.tp.start - 1) then do let t ← c.getToken (c.tp.stop - 1); .ok (some t)
   else .ok none
 
+/-- `getPrintToken(atEnd)`: the token an error message is attached to (`none` = NULL).  With `atEnd`
+    the C++ temporarily sets `tp.start = tp.end`, so the first test fails and the token before the
+    end is taken. -/
+def Ctx.getPrintToken (c : Ctx) (atEnd : Bool) : Res (Option Tok) :=
+  if c.size = 0 then .ok none
+  else
+    let start := if atEnd then c.tp.stop else c.tp.start
+    let c' : Ctx := { c with tp := ⟨start, c.tp.stop⟩ }
+    let offset : Int := if !c'.indexInRange 0 && decide (0 < start) then -1 else 0
+    do let t ← c.getToken (start + offset); .ok (some t)
+
 /-- `getClosingPair()` -/
 def Ctx.getClosingPair (c : Ctx) : Int :=
   if c.size = 0 then -1
@@ -293,7 +304,7 @@ def Ctx.getNextOperator (c : Ctx) (opType : Bitfield) (fuel : Nat) : Res (Ctx ×
 inductive NavOp where
   | set1 (a : Int) | set2 (a b : Int) | push0 | push1 (a : Int) | push2 (a b : Int)
   | pop | popAndSkip | pushPairRange
-  | at (i : Int) | endTok | closing | closingTok | next (opType : Bitfield)
+  | at (i : Int) | endTok | closing | closingTok | next (opType : Bitfield) | printTok (atEnd : Bool)
 deriving Repr
 
 /-- one call; the observation is what the C++ returns (an index, or whether a token came back) -/
@@ -311,6 +322,7 @@ def Ctx.step (c : Ctx) : NavOp → Res (Ctx × Int)
   | .closing => .ok (c, c.getClosingPair)
   | .closingTok => do let t ← c.getClosingPairToken; .ok (c, if t.isSome then 1 else 0)
   | .next m => c.getNextOperator m (c.size.toNat + 1)
+  | .printTok e => do let t ← c.getPrintToken e; .ok (c, if t.isSome then 1 else 0)
 
 /-- run a history; calls that raise occa::exception leave the context unchanged (the parser reports
     and goes on) -/
